@@ -430,45 +430,62 @@ def bindTypeName (t : String) : String :=
     else if x == "N" then "NilClass" else if x == "U" then "Untyped" else if x == "B" then "Bool" else if x == "A" then "Array"
     else if x == "H" then "Hash" else x)
 
+/-- parameter spec of one declaration → parameters in the order prioritizeDefineArgNames yields -/
+def bindParams (pspec : String) : List Bind.Param :=
+  let toks := ((pspec.replace "-" " ").splitOn " ").filter (· != "")
+  let mk (tok : String) : Option (Bool × Bind.Param) :=      -- (is keyword, param)
+    match tok.splitOn ":" with
+    | "p" :: rest =>
+      let t := ":".intercalate rest
+      let d := t.endsWith "?"
+      let t := if d then (t.dropEnd 1).toString else t
+      some (false, { kind := .pos, t := Config.parseArgument { type := .single (bindTypeName t).toList, isDefault := d } })
+    | "s" :: rest =>
+      let t := ":".intercalate rest
+      some (false, { kind := .star, t := Config.parseArgument { type := .single (bindTypeName t).toList, isAsterisk := true } })
+    | "k" :: name :: rest =>
+      let t := ":".intercalate rest
+      let d := t.endsWith "?"
+      let t := if d then (t.dropEnd 1).toString else t
+      let kv := Config.parseArgument { type := .single (bindTypeName t).toList, key := (name ++ ":").toList, isDefault := d }
+      some (true, { kind := .key, name := name.toList, t := Unify.keyValue kv })
+    | _ => none
+  let parsed := toks.filterMap mk
+  let posPs := (parsed.filter (!·.1)).map (·.2)
+  let keyPs := ((parsed.filter (·.1)).map (·.2)).mergeSort (fun a b => !Args.strLt b.name a.name)
+  posPs ++ keyPs
+
+/-- argument spec → arguments in the order prioritizeArgTs yields -/
+def bindArgs (aspec : String) : List Bind.Arg :=
+  let rawArgs := ((aspec.splitOn ";").map (·.trimAscii.toString)).filter (fun a => a != "" && a != "-")
+  let isKwTok (a : String) : Option (String × String) :=
+    match a.splitOn "=" with
+    | name :: rest => if rest != [] && !(name.contains ' ') && !(name.contains '(') then some (name, "=".intercalate rest) else none
+    | _ => none
+  let posAs : List Bind.Arg := rawArgs.filterMap fun a => match isKwTok a with | some _ => none | none => some (Bind.Arg.pos (nestedT a))
+  let kwAs := (rawArgs.filterMap fun a => match isKwTok a with | some (n, r) => some (n, nestedT r) | none => none)
+  let kwSorted := kwAs.mergeSort (fun a b => !Args.strLt b.1.toList a.1.toList)
+  posAs ++ kwSorted.map fun (n, t) => Bind.Arg.kw n.toList t
+
+def bindResName : Bind.Res → String
+  | .ok => "ok" | .tooFew => "tooFew" | .tooMany => "tooMany" | .mismatch => "mismatch" | .missingKey => "missingKey"
+  | .extraArg => "extraArg" | .notDefined => "notDefined" | .kwExpected => "kwExpected"
+
 /-- bind <params> | <args> | <untyped return 0/1> -/
 def opBind (args : String) : String :=
   match args.splitOn " | " with
   | [pspec, aspec, untyped] =>
-    let toks := ((pspec.replace "-" " ").splitOn " ").filter (· != "")
-    let mk (tok : String) : Option (Bool × Bind.Param) :=      -- (is keyword, param)
-      match tok.splitOn ":" with
-      | "p" :: rest =>
-        let t := ":".intercalate rest
-        let d := t.endsWith "?"
-        let t := if d then (t.dropEnd 1).toString else t
-        some (false, { kind := .pos, t := Config.parseArgument { type := .single (bindTypeName t).toList, isDefault := d } })
-      | "s" :: rest =>
-        let t := ":".intercalate rest
-        some (false, { kind := .star, t := Config.parseArgument { type := .single (bindTypeName t).toList, isAsterisk := true } })
-      | "k" :: name :: rest =>
-        let t := ":".intercalate rest
-        let d := t.endsWith "?"
-        let t := if d then (t.dropEnd 1).toString else t
-        let kv := Config.parseArgument { type := .single (bindTypeName t).toList, key := (name ++ ":").toList, isDefault := d }
-        some (true, { kind := .key, name := name.toList, t := Unify.keyValue kv })
-      | _ => none
-    let parsed := toks.filterMap mk
-    let posPs := (parsed.filter (!·.1)).map (·.2)
-    let keyPs := ((parsed.filter (·.1)).map (·.2)).mergeSort (fun a b => !Args.strLt b.name a.name)
-    let ps := posPs ++ keyPs
-    let rawArgs := ((aspec.splitOn ";").map (·.trimAscii.toString)).filter (fun a => a != "" && a != "-")
-    let isKwTok (a : String) : Option (String × String) :=
-      match a.splitOn "=" with
-      | name :: rest => if rest != [] && !(name.contains ' ') && !(name.contains '(') then some (name, "=".intercalate rest) else none
-      | _ => none
-    let posAs : List Bind.Arg := rawArgs.filterMap fun a => match isKwTok a with | some _ => none | none => some (Bind.Arg.pos (nestedT a))
-    let kwAs := (rawArgs.filterMap fun a => match isKwTok a with | some (n, r) => some (n, nestedT r) | none => none)
-    let kwSorted := kwAs.mergeSort (fun a b => !Args.strLt b.1.toList a.1.toList)
-    let as := posAs ++ kwSorted.map fun (n, t) => Bind.Arg.kw n.toList t
-    let r := if untyped.trimAscii.toString == "1" then (RubyTi.Bind.loop as ps 0 false).1 else RubyTi.Bind.bind ps as
-    match r with
-    | .ok => "ok" | .tooFew => "tooFew" | .tooMany => "tooMany" | .mismatch => "mismatch" | .missingKey => "missingKey"
-    | .extraArg => "extraArg" | .notDefined => "notDefined" | .kwExpected => "kwExpected"
+    let ps := bindParams pspec
+    let as := bindArgs aspec
+    bindResName (if untyped.trimAscii.toString == "1" then (RubyTi.Bind.loop as ps 0 false).1 else RubyTi.Bind.bind ps as)
+  | _ => "BAD-ARGS"
+
+/-- bindu <decl> ;; <decl> ... || <decl> ;; ... | <args> : a union receiver; each class with its declarations -/
+def opBindU (args : String) : String :=
+  match args.splitOn " | " with
+  | [cspec, aspec] =>
+    let classes := (cspec.splitOn " || ").map fun c => (c.splitOn " ;; ").map bindParams
+    bindResName (RubyTi.Bind.bindUnion classes (bindArgs aspec))
   | _ => "BAD-ARGS"
 
 def rbsParam (s : String) : Rbs.Param :=
@@ -532,6 +549,7 @@ def dispatch (line : String) : String :=
   else if name == "ancestor" then opAncestor args
   else if name == "match" then opMatch args
   else if name == "bind" then opBind args
+  else if name == "bindu" then opBindU args
   else if name == "prop" then opProp args
   else if name == "narrow" then opNarrow args
   else if name == "ret" then opRet args
